@@ -53,8 +53,10 @@ for key, det in blocks:
     if (key, text) in seen and det is not None:
         pass
     disp = None
+    legacy = re.sub(r" ~.*?(?= #|\||$)", "", text)          # the description without its skeleton (what the triage rules were written against)
+    legacy_key = re.sub(r" ~.*?(?= #|\||$)", "", key)
     for sub, kind, why in TR.RULES.get(prop, []):
-        if sub in text or sub in key:
+        if sub in text or sub in key or sub in legacy or sub in legacy_key:
             disp = (kind, why)
             break
     if disp is None:
